@@ -330,6 +330,28 @@ public:
 		return true;
 	}
 
+	// CBC-encrypt an arbitrary block-aligned buffer as a record body (for
+	// structurally illegal plaintext layouts); explicit IV prepended for 1.1+
+	std::vector<uint8_t> encrypt_raw_cbc(const std::vector<uint8_t> &body)
+	{
+		size_t bs = block_len(si->cipher);
+		std::vector<uint8_t> out, ct(body.size());
+		uint8_t ivv[16];
+		bool expl = version >= 0x0302;
+		if (expl) for (size_t i = 0; i < bs; i++) ivv[i] = (uint8_t)(0x5C + i);
+		else memcpy(ivv, iv.data(), bs);
+		cbc_raw(true, ivv, body.data(), body.size() - body.size() % bs, ct.data());
+		if (expl) out.insert(out.end(), ivv, ivv + bs);
+		out.insert(out.end(), ct.begin(), ct.begin() + (body.size() - body.size() % bs));
+		return out;
+	}
+	void mac_of(uint64_t s, uint8_t type, unsigned ver, const uint8_t *pt, size_t len, uint8_t *out) const
+	{
+		uint8_t hdr[13];
+		put_hdr13(hdr, s, type, ver, len);
+		hmac(hdr, pt, len, out);
+	}
+
 	// Protect a plaintext; returns the record *payload* (what follows the
 	// 5-byte header).
 	std::vector<uint8_t> encrypt(uint8_t type, unsigned rec_version, const uint8_t *pt, size_t len, const EncOpts &o = EncOpts())
